@@ -352,6 +352,24 @@ def build_replay(ctx, obl, res):
         if doc["inputs_c"] is not None:
             res.reproduced = doc.get("native_rc") not in (0, 4, None)
             doc["reproduced"] = res.reproduced
+    elif res.failed and obl.mode != "proof-unbounded":
+        # no native replay driver for this harness (C++ harness / contract-enforced entry): still record the
+        # verifier's counterexample values of the input struct, if the harness has one
+        try:
+            plevel, aux, unw = classify(obl, res.failed)
+            cands = sorted(plevel, key=lambda x: (0 if ".assertion." in x[0] else 1))[:1]
+            for pid, _ in cands:
+                rt = run_obligation(ctx, obl, want_trace=True, trace_props=[pid])
+                for pr in getattr(rt, "raw_results", []) or []:
+                    if pr.get("status") == "FAILURE" and "trace" in pr:
+                        v = extract_inputs(pr["trace"])
+                        if v is not None:
+                            doc["verifier_counterexample_inputs_c"] = _c_value(v)
+                            doc["traced_property"] = pid
+                        break
+        except Exception as e:      # best effort only
+            doc["trace_error"] = str(e)[:200]
+        doc["native_replay"] = "not available for this harness; the counterexample above is the verifier's, not replayed"
     with open(path, "w") as f:
         json.dump(doc, f, indent=1)
     res.replay = path
